@@ -210,3 +210,53 @@ def replay(ctx):
     ctx.cov["samples"] = [{"mode": c["mode"], "verdict": code}]
     if code not in (0, 1):
         ctx.violation({"kind": "replayed case: " + VERDICT_TEXT.get(code, "?"), "case": c})
+
+
+def wrap64(z):
+    return (z + 2 ** 63) % 2 ** 64 - 2 ** 63
+
+
+def check_sweep(ctx, cases, ops):
+    """Size sweep (tables of 0 .. 65537 rows, one int64 key column): the implementation against the SPEC, computed here in
+    Python - these tables are NOT evaluated by the Gallina model inside Coq (too large); sort: permutation + value order,
+    limit: prefix of min(n, N) rows, reduce: one row per distinct key, in key order, count = |group|, sum = wrapped sum."""
+    done = collections_counter()
+    for c in cases:
+        if c["op"] not in ops:
+            continue
+        n, keys, vals = c["n"], c["keys"] or [], c["vals"] or []
+        done["%s:%d" % (c["op"], n)] += 1
+        bad = None
+        if c["outcome"] != "ok":
+            bad = "outcome " + c["outcome"]
+        elif c["op"] == "sort":
+            ids = c["out_ids"] or []
+            if sorted(ids) != list(range(n)):
+                bad = "output is not a permutation of the input rows (%d rows out of %d)" % (len(ids), n)
+            else:
+                ks = [keys[i] for i in ids]
+                if any((a < b) if c["desc"] else (a > b) for a, b in zip(ks, ks[1:])):
+                    bad = "output is not in value order"
+        elif c["op"] == "limit":
+            ids = c["out_ids"] or []
+            if ids != list(range(min(n, c["limit"]))):
+                bad = "LIMIT %d of %d rows kept %d rows / not the first rows" % (c["limit"], n, len(ids))
+        elif c["op"] == "reduce":
+            groups = {}
+            for k, v in zip(keys, vals):
+                g = groups.setdefault(k, [0, 0])
+                g[0] += 1
+                g[1] = wrap64(g[1] + v)
+            want = [(k, groups[k][0], groups[k][1]) for k in sorted(groups)]
+            got = list(zip(c["out_keys"] or [], c["out_cnt"] or [], c["out_sum"] or []))
+            if got != want:
+                bad = "GROUP BY over %d rows: %d result rows for %d groups, or wrong count / sum" % (n, len(got), len(want))
+        if bad:
+            small = {k: (v if not isinstance(v, list) or len(v) <= 40 else v[:40] + ["..."]) for k, v in c.items()}
+            ctx.violation({"kind": "size sweep: " + bad, "case": small})
+    return dict(done)
+
+
+def collections_counter():
+    import collections
+    return collections.Counter()
